@@ -393,8 +393,31 @@ func leavesOf(v ssa.Value) []ssa.Value {
 		case *ssa.ChangeInterface:
 			rec(x.X)
 			return
+		case *ssa.Field:
+			// field k of a struct value loaded from a local struct variable
+			if ld, ok := x.X.(*ssa.UnOp); ok && ld.Op == token.MUL {
+				if al := localAllocOf(ld.X); al != nil {
+					if vals, ok := fieldOrigins(al, []int{x.Field}, 0); ok {
+						for _, fv := range vals {
+							rec(fv)
+						}
+						return
+					}
+				}
+			}
 		case *ssa.UnOp:
 			if x.Op == token.MUL {
+				// field of a local struct variable (possibly written through closures or by whole-struct copies)
+				if fa, ok := x.X.(*ssa.FieldAddr); ok {
+					if al := localAllocOf(fa.X); al != nil {
+						if vals, ok := fieldOrigins(al, []int{fa.Field}, 0); ok {
+							for _, fv := range vals {
+								rec(fv)
+							}
+							return
+						}
+					}
+				}
 				var al *ssa.Alloc
 				switch a := x.X.(type) {
 				case *ssa.Alloc:
@@ -813,4 +836,105 @@ func getterPath(f *ssa.Function) []string {
 // zeroLike: the constant 0 of v's type.
 func zeroLike(v ssa.Value) ssa.Value {
 	return ssa.NewConst(constant.MakeInt64(0), v.Type())
+}
+
+// localAllocOf: v is (a free variable bound to) a local variable's allocation.
+func localAllocOf(v ssa.Value) *ssa.Alloc {
+	for i := 0; i < 4; i++ {
+		switch x := v.(type) {
+		case *ssa.Alloc:
+			return x
+		case *ssa.FreeVar:
+			v = bindingOf(x)
+		default:
+			return nil
+		}
+	}
+	return nil
+}
+
+// addrsOf: the allocation itself and every free variable (in nested literals) bound to it.
+func addrsOf(al *ssa.Alloc) []ssa.Value {
+	out := []ssa.Value{al}
+	seen := map[ssa.Value]bool{al: true}
+	for i := 0; i < len(out); i++ {
+		refs := out[i].Referrers()
+		if refs == nil {
+			continue
+		}
+		for _, r := range *refs {
+			if mc, ok := r.(*ssa.MakeClosure); ok {
+				fnc := mc.Fn.(*ssa.Function)
+				for j, b := range mc.Bindings {
+					if b == out[i] && j < len(fnc.FreeVars) && !seen[fnc.FreeVars[j]] {
+						seen[fnc.FreeVars[j]] = true
+						out = append(out, fnc.FreeVars[j])
+					}
+				}
+			}
+		}
+	}
+	return out
+}
+
+// fieldOrigins: the values that may be stored in field path `path` of the local struct variable al: direct stores
+// to that field (in the function or in literals capturing the variable) and whole-struct copies from another local
+// struct variable (followed). ok=false when the variable is written in a way that is not understood.
+func fieldOrigins(al *ssa.Alloc, path []int, depth int) ([]ssa.Value, bool) {
+	if depth > 4 || len(path) != 1 {
+		return nil, false
+	}
+	var out []ssa.Value
+	for _, a := range addrsOf(al) {
+		refs := a.Referrers()
+		if refs == nil {
+			continue
+		}
+		for _, r := range *refs {
+			switch x := r.(type) {
+			case *ssa.FieldAddr:
+				if x.Field != path[0] {
+					continue
+				}
+				if rr := x.Referrers(); rr != nil {
+					for _, u := range *rr {
+						if st, ok := u.(*ssa.Store); ok && st.Addr == ssa.Value(x) {
+							if k, isK := st.Val.(*ssa.Const); isK && k.Value == nil {
+								continue
+							}
+							out = append(out, st.Val)
+						}
+					}
+				}
+			case *ssa.Store:
+				if x.Addr != a {
+					continue
+				}
+				// whole-struct store
+				switch v := x.Val.(type) {
+				case *ssa.Const:
+					// zero value
+				case *ssa.UnOp:
+					src := localAllocOf(v.X)
+					if v.Op != token.MUL || src == nil {
+						return nil, false
+					}
+					if src == al {
+						continue // self copy
+					}
+					vals, ok := fieldOrigins(src, path, depth+1)
+					if !ok {
+						return nil, false
+					}
+					out = append(out, vals...)
+				default:
+					return nil, false
+				}
+			}
+		}
+	}
+	if len(out) == 0 {
+		return nil, false
+	}
+	return out, true
 }
